@@ -369,6 +369,12 @@ static const char *vin = "abX"; static int vpos, vreq;
     add("yyreject()-detected", [([], [])], lambda P: gen_ok(P) or tokens_main(P, b"ab", "2 end"), body="ab { yyreject(); }\nab return 2;\n", sect3=MAIN_NR)
     add("REJECT-detected", [([], [])], lambda P: gen_ok(P) or tokens_main(P, b"ab", "2 end"), body="ab { REJECT; }\nab return 2;\n", sect3=MAIN_NR)
 
+    # --- default character-set size (manual: 8-bit unless -Cf / -CF without equivalence classes)
+    B8 = "\\x80 return 1;\n"
+    add("default-8bit", [([], []), (["-Cem"], []), (["-Ce"], []), (["-Cm"], []), (["-C"], []), (["-Ca"], []), (["-Cfe"], []), (["-CFe"], []), (["-Cfea"], []),
+                         ([], ["full ecs"]), ([], ["fast ecs"]), (["-I"], []), (["-B"], [])],
+        lambda P: gen_ok(P) or tokens_main(P, b"\x80", "1 end"), body=B8, sect3=MAIN_NR)
+    add("default-7bit", [(["-Cf"], []), (["-CF"], []), (["-f"], []), (["-F"], []), (["-Cfa"], []), ([], ["full"]), ([], ["fast"])], p_7bit, body=B8)
     # --- table options
     def has(rx, what, neg=False):
         def f(P):
@@ -564,6 +570,62 @@ def evaluate(args):
     return res
 
 
+# ------------------------------------------------------------------ order independence / spelling parity
+# Options that do not interact: the generated scanner must not depend on the order in which two of them are written, nor on whether
+# they are written as %option or on the command line.
+ORDER_OPTS = ["7bit", "8bit", "align", "noalign", "array", "pointer", "backup", "batch", "interactive", "caseless", "caseful", "debug", "nodebug", "default", "nodefault",
+              "ecs", "noecs", "meta-ecs", "nometa-ecs", "line", "noline", "main", "nomain", "perf-report", "reject", "noreject", "stack", "nostack", "stdinit", "nostdinit",
+              "unistd", "nounistd", "verbose", "warn", "nowarn", "yylineno", "noyylineno", "yymore", "noyymore", "yywrap", "noyywrap", "noyyinput", "noyyunput",
+              "noyy_scan_bytes", "noyyget_text", "always-interactive", "never-interactive", "posix", "lex-compat", "bison-bridge", "reentrant", "read", "noread"]
+ORDER_BODY = "%%\nabc     return 1;\n[a-z]+  return 2;\n\\n      return 3;\n.       return 4;\n%%\n"
+CLI_FORM = {"7bit": "-7", "8bit": "-8", "array": "--array", "pointer": "--pointer", "caseless": "-i", "nodefault": "-s", "noline": "-L", "nowarn": "-w", "verbose": "-v",
+            "batch": "-B", "interactive": "-I", "debug": "-d", "backup": "-b", "lex-compat": "-l", "posix": "-X", "perf-report": "-p", "reentrant": "-R"}
+
+
+def _base(o):
+    return o[2:] if o.startswith("no") and o not in ("nodefault",) or o == "nodefault" else o
+
+
+def order_job(args):
+    """(a, b): scanners from '%option a' + '%option b' in both orders must be identical; so must the command-line spelling of either"""
+    a, b = args
+    flex = build.get_flex()
+    wd = H.mkscratch("c19o")
+    res = {"pair": (a, b), "msgs": [], "runs": 0}
+    try:
+        def gen(pct, cli, name):
+            # an option moved to the command line leaves an empty line behind, so that the line numbers of the rules stay the same
+            open(os.path.join(wd, "o.l"), "w").write("".join(("%%option %s\n" % x) if x else "\n" for x in pct) + ORDER_BODY)
+            p = subprocess.run([flex.exe] + list(cli) + ["-o", name, "o.l"], cwd=wd, env=H.ENV, stdin=subprocess.DEVNULL, stdout=subprocess.PIPE, stderr=subprocess.PIPE, timeout=60)
+            res["runs"] += 1
+            out = None
+            if os.path.exists(os.path.join(wd, name)):
+                out = open(os.path.join(wd, name), "rb").read()
+                os.unlink(os.path.join(wd, name))
+            # line numbers of the input shift with the number of %option lines: compare with directives removed
+            if out is not None:
+                out = re.sub(rb'(?m)^#line \d+ "o\.l"\n', b"", out)
+                out = re.sub(rb'(?m)^#line \d+ "x\.c"\n', b"", out)
+            return p.returncode, out, p.stderr.decode("latin-1")
+        r1 = gen([a, b], [], "x.c")
+        r2 = gen([b, a], [], "x.c")
+        if (r1[0] == 0) != (r2[0] == 0):
+            res["msgs"].append(("order-accept", "'%%option %s' then '%%option %s' exits %s, the other order exits %s (%s | %s)" % (a, b, r1[0], r2[0], r1[2][-100:].strip(), r2[2][-100:].strip())))
+        elif r1[0] == 0 and r1[1] != r2[1]:
+            res["msgs"].append(("order-output", "the scanner generated for '%%option %s' + '%%option %s' depends on the order of the two lines" % (a, b)))
+        for x, y in ((a, b), (b, a)):
+            if x in CLI_FORM:
+                r3 = gen([y, ""] if x == b else ["", y], [CLI_FORM[x]], "x.c")
+                # one %option line fewer: directive numbers differ but were removed above
+                if (r3[0] == 0) != (r1[0] == 0):
+                    res["msgs"].append(("cli-accept", "%s on the command line with '%%option %s' exits %s, both as %%option exit %s" % (CLI_FORM[x], y, r3[0], r1[0])))
+                elif r1[0] == 0 and r3[1] != r1[1]:
+                    res["msgs"].append(("cli-output", "%s on the command line with '%%option %s' gives a different scanner than '%%option %s %s'" % (CLI_FORM[x], y, x, y)))
+        return res
+    finally:
+        shutil.rmtree(wd, ignore_errors=True)
+
+
 # options whose effect is independent of the others and whose flags can be added to any probe
 NEUTRAL = ["align", "ecs", "noecs", "meta-ecs", "batch", "8bit", "noline", "nounistd", "verbose", "nowarn", "backup", "never-interactive", "always-interactive",
            "yylineno", "debug", "perf-report", "stack", "yymore", "reject"]
@@ -626,7 +688,25 @@ def run(tier):
             ck.violation(sig, "option %s given as [%s]: %s" % (what, sp, m), files={"p.l": res.get("spec", "")}, case={"flex_stderr": res.get("flex_stderr")})
         if len(ck.samples) < 10 and j[2] is None:
             ck.sample({"option": j[0], "spelling": res["spelling"]})
-    ck.cov.update(evaluations=n1 + n2, distinct_nontrivial=len(T), options_in_table=len(T), single_option_probes=n1, pair_probes=n2,
+    # order independence and spelling parity over all unordered pairs of distinct options (a pair of an option and its own negation is
+    # order dependent by definition and is left out)
+    opairs = [(a, b) for i, a in enumerate(ORDER_OPTS) for b in ORDER_OPTS[i + 1:] if (a[2:] if a.startswith("no") else a) != (b[2:] if b.startswith("no") else b)
+              and not ({a, b} <= {"7bit", "8bit"}) and not ({a, b} <= {"array", "pointer"}) and not ({a, b} <= {"batch", "interactive"})
+              and not ({a, b} <= {"caseless", "caseful"}) and not ({a, b} <= {"default", "nodefault"})
+              # documented interactions: the interactive family overrides one another, main implies noyywrap
+              and not ({a, b} <= {"batch", "interactive", "always-interactive", "never-interactive"})
+              and not ("main" in (a, b) and ({a, b} & {"yywrap", "noyywrap"}))]
+    nord = 0
+    for j, res in pmap(order_job, opairs, check=ck):
+        if "worker_exception" in res:
+            ck.broken.append("order worker failed on %s: %s" % (j, res["worker_exception"]))
+            continue
+        nord += res["runs"]
+        for kind, m in res["msgs"]:
+            ck.violation("C19:%s:%s+%s" % (kind, j[0], j[1]), m, case={"pair": j})
+    ck.cov["order_parity_runs"] = nord
+    ck.cov["order_parity_pairs"] = len(opairs)
+    ck.cov.update(evaluations=n1 + n2 + nord, distinct_nontrivial=len(T), options_in_table=len(T), single_option_probes=n1, pair_probes=n2,
                   rule="bound 1: every option of the table in every spelling (short and long command-line form, %option) with an executable predicate "
                        "from the manual (files written, symbols present/absent in nm, a probe program compiles, links and prints the expected "
                        "tokens/values); bound 2: the probe of one option with the flags of a second, independent option added must still satisfy "
